@@ -25,7 +25,8 @@ include hst hd
 /-- a list of option lines below the node at depth `dep` (open sections `e`) -/
 theorem options_claim : ∀ (os : Forest) (kk dep : Nat) (e : List (List UInt8)) (b : Build) (prev : Nat) (s : St)
     (src : Src) (J rest : List UInt8) (first : Bool),
-    os.all isLeaf = true → nodesOk os = true → Ready e s src J (renderOptions d kk os ++ rest) →
+    os.all isLeaf = true → nodesOk os = true → forestFits cfg.sect cfg.opt os = true →
+    Ready e s src J (renderOptions d kk os ++ rest) →
     Mode first dep b prev → PrevOpt prev → HasSpine dep b.forest →
     ∃ (b' : Build) (prev' : Nat) (s' : St) (src' : Src) (J' : List UInt8),
       Ready e s' src' J' rest ∧ Mode (first && os.isEmpty) dep b' prev' ∧ prev' = (if os.isEmpty then prev else 11)
@@ -34,14 +35,17 @@ theorem options_claim : ∀ (os : Forest) (kk dep : Nat) (e : List (List UInt8))
   intro os
   induction os with
   | nil =>
-    intro kk dep e b prev s src J rest first _ _ hr hm hp hs
+    intro kk dep e b prev s src J rest first _ _ _ hr hm hp hs
     exact ⟨b, prev, s, src, J, by simpa [renderOptions] using hr, by simpa using hm, rfl,
       by simp [norm, appendAll], hs, rfl⟩
   | cons t ts ih =>
-    intro kk dep e b prev s src J rest first hleaf hok hr hm hp hs
+    intro kk dep e b prev s src J rest first hleaf hok hfit hr hm hp hs
     simp only [List.all_cons, Bool.and_eq_true] at hleaf
     obtain ⟨n, v, ht⟩ := (isLeaf_iff t).mp hleaf.1
     subst ht
+    have hfit' : nameFits cfg.opt n = true ∧ forestFits cfg.sect cfg.opt ts = true := by
+      simp only [forestFits, treeFits, List.isEmpty_nil, ↓reduceIte, Bool.and_eq_true] at hfit
+      exact ⟨hfit.1.1, hfit.2⟩
     have hok' : treeOk (.node n v []) = true ∧ nodesOk ts = true := by simpa [nodesOk] using hok
     have hnv : nameOk n = true ∧ OptValOk v := by
       have := hok'.1
@@ -58,8 +62,8 @@ theorem options_claim : ∀ (os : Forest) (kk dep : Nat) (e : List (List UInt8))
       rw [hr.src]
       cases v <;> simp [renderOptions, optionLine, valueText, List.append_assoc]
     obtain ⟨s1, src1, heq, ⟨l, kq, fi', ln', hs1, htake⟩, hrest⟩ :=
-      hst.optLine e s src prev _ n (d kk).pre (d kk).post (d kk).trail _ v hr.clean hr.valid hp hjunk hnv.1 hpre hpost
-        htr hnv.2 hsrc
+      hst.optLine e s src prev _ n (d kk).pre (d kk).post (d kk).trail _ v hr.clean hr.valid hp hjunk hnv.1
+        (nameFits_ncheck _ _ hfit'.1) hpre hpost htr hnv.2 hsrc
     have hlen : n.length < 65535 := by
       have := hnv.1
       simp only [nameOk, Bool.and_eq_true, decide_eq_true_eq] at this
@@ -92,7 +96,7 @@ theorem options_claim : ∀ (os : Forest) (kk dep : Nat) (e : List (List UInt8))
     have hr1 : Ready e { s1 with path := Pth e [] false fi2, curr := 0, valid := 0 } src1 []
         (renderOptions d (kk + 1) ts ++ rest) := ⟨clean_pth e fi2, rfl, rfl, by simpa using hrest⟩
     obtain ⟨b2, prev2, s2, src2, J2, hr2, hm2, hp2, hf2, hs2, heq2⟩ :=
-      ih (kk + 1) dep e _ s1.curr _ src1 [] rest false hleaf.2 hok'.2 hr1 hm1 (by rw [hcurr]; exact Or.inr (Or.inr rfl))
+      ih (kk + 1) dep e _ s1.curr _ src1 [] rest false hleaf.2 hok'.2 hfit'.2 hr1 hm1 (by rw [hcurr]; exact Or.inr (Or.inr rfl))
         (hasSpine_appendAt dep _ _ hs)
     refine ⟨b2, prev2, s2, src2, J2, hr2, by simpa using hm2, ?_, ?_, hs2, hstep.trans heq2⟩
     · rw [hp2, hcurr]; simp
@@ -105,73 +109,75 @@ end options
 
 /-- `parseNode` on a description whose format and type are known -/
 theorem parseNode_eq (desc : Option (List UInt8)) (cfg : Cfg) (t : UInt8) (k : Kind) (input : List UInt8)
-    (hdesc : parseFormat desc = (cfg.fmt, t)) (hk : Kind.ofType t = some k)
-    (hcfg : cfg = { fmt := cfg.fmt, sect := 0xff, opt := 0xff, eof := -2 })
+    (fs fo : Nat) (hdesc : parseFormat desc = (cfg.fmt, t)) (hk : Kind.ofType t = some k)
+    (hcfg : cfg = { fmt := cfg.fmt, sect := fs, opt := fo, eof := -2 })
     (r : Result Build) (hr : parseConfig k cfg nodeAppend ({} : Build) Flag.section_ input = r) (hcode : r.code = 0) :
-    (parseNode [] desc 0xff 0xff (-2) input).code = 0
-    ∧ (parseNode [] desc 0xff 0xff (-2) input).children = r.ctx.forest := by
+    (parseNode [] desc fs fo (-2) input).code = 0
+    ∧ (parseNode [] desc fs fo (-2) input).children = r.ctx.forest := by
   unfold parseNode
   simp only [hdesc, hk]
   rw [← hcfg, hr]
   simp [hcode]
 
 /-- the `{x}` format as a nested style: `{name` opens a section, `}` closes it -/
-theorem nestStyle_E : NestStyle .enc cfgE encOpenLine where
+theorem nestStyle_E (fs fo : Nat) : NestStyle .enc (cfgE fs fo) encOpenLine where
   optLine := by
-    intro e s src prev junk n pre post tr rest ov h1 h2 h4 h5 h6 h7 h8 h9 h10
+    intro e s src prev junk n pre post tr rest ov h1 h2 h4 h5 hnc h6 h7 h8 h9 h10
     simp only [next]
-    exact enc_option_line flatCfg_E (by decide) (by decide) e s src prev junk n pre post tr rest ov h1 h2
-      (Or.inr (by decide)) h4 h5 h6 h7 h8 h9 h10
+    exact enc_option_line (flatCfg_E (fs := fs) (fo := fo)) rfl rfl e s src prev junk n pre post tr rest ov h1 h2
+      (Or.inr rfl) h4 h5 hnc h6 h7 h8 h9 h10
   openLine := by
-    intro e s src prev J dl n rest hclean hv hJ hdl hn hsrc
+    intro e s src prev J dl n rest hclean hv hJ hdl hn hnc hsrc
     obtain ⟨_, _, _, hht⟩ := LineDecor.ok_parts _ hdl
     have hjunk := visSkip_lead J dl hJ hdl
     have hsrc' : src.rest = (J ++ dl.before ++ dl.indent) ++ 123 :: (n ++ headTrail dl ++ 10 :: rest) := by
       rw [hsrc]; simp [encOpenLine, List.append_assoc]
-    obtain ⟨ln, src1, hnv, hr1⟩ := nextvis_skip flatCfg_E.hash _ 123 _ s src hjunk (by decide) hsrc'
+    obtain ⟨ln, src1, hnv, hr1⟩ := nextvis_skip (flatCfg_E (fs := fs) (fo := fo)).hash _ 123 _ s src hjunk (by decide) hsrc'
     have hclean1 : Clean e ({ s with line := ln } : St).path := hclean
-    obtain ⟨l, fi', ln', src2, J', hes, hJ', hr2⟩ := encSection_head flatCfg_E e { s with line := ln } src1 n
-      (headTrail dl) rest hclean1 hv hn hht hr1
+    obtain ⟨l, fi', ln', src2, J', hes, hJ', hr2⟩ := encSection_head (flatCfg_E (fs := fs) (fo := fo)) e { s with line := ln } src1 n
+      (headTrail dl) rest hclean1 hv hn hnc hht hr1
     refine ⟨_, src2, J', ?_, ⟨l, fi', 0, ln', rfl⟩, hJ', hr2⟩
     simp only [next, parseFormatEnc]
-    have hse : (cfgE.fmt.sstart == cfgE.fmt.send) = false := by decide
-    have h1 : ((123 : UInt8) == cfgE.fmt.send) = false := by decide
-    have h2 : ((123 : UInt8) != cfgE.fmt.sstart) = false := by decide
+    have hse : ((cfgE fs fo).fmt.sstart == (cfgE fs fo).fmt.send) = false := rfl
+    have h1 : ((123 : UInt8) == (cfgE fs fo).fmt.send) = false := rfl
+    have h2 : ((123 : UInt8) != (cfgE fs fo).fmt.sstart) = false := rfl
     simp only [hse, Bool.false_eq_true, ↓reduceIte, hnv, h1, Bool.and_false, h2, hes]
   closeLine := by
     intro e m s src prev junk rest hclean _ hj hsrc
-    obtain ⟨ln, src1, hnv, hr1⟩ := nextvis_skip flatCfg_E.hash junk 125 rest s src hj (by decide) hsrc
+    obtain ⟨ln, src1, hnv, hr1⟩ := nextvis_skip (flatCfg_E (fs := fs) (fo := fo)).hash junk 125 rest s src hj (by decide) hsrc
     obtain ⟨p', hafter, hclean'⟩ := del_clean e m s.path hclean
     have hem : s.path.elems.isEmpty = false := by rw [hclean.1]; simp
     refine ⟨{ s with line := ln, curr := Flag.sectEnd }, src1, p', ?_, rfl, hafter, hclean', hr1⟩
     simp only [next, parseFormatEnc]
-    have hse : (cfgE.fmt.sstart == cfgE.fmt.send) = false := by decide
+    have hse : ((cfgE fs fo).fmt.sstart == (cfgE fs fo).fmt.send) = false := rfl
     simp [hse, hnv, hem, Flag.sectEnd]
   eof := by
     intro s src prev junk b hclean hj hsrc
-    obtain ⟨ln, src1, hnv, _⟩ := nextvis_end flatCfg_E.hash junk b s src hj hsrc
+    obtain ⟨ln, src1, hnv, _⟩ := nextvis_end (flatCfg_E (fs := fs) (fo := fo)).hash junk b s src hj hsrc
     refine ⟨{ s with line := ln, curr := Flag.name }, src1, ?_⟩
     simp only [next, parseFormatEnc]
-    have hse : (cfgE.fmt.sstart == cfgE.fmt.send) = false := by decide
+    have hse : ((cfgE fs fo).fmt.sstart == (cfgE fs fo).fmt.send) = false := rfl
     have hem : s.path.elems.isEmpty = true := by rw [hclean.1]; rfl
     simp [hse, hnv, hem]
 
 /-- the element loop on a whole text in the `{x}` format, from any clean parser state -/
-theorem loop_enc (d : Decor) (hd : d.ok) (f : Forest) (hok : nodesOk f = true)
+theorem loop_enc (fs fo : Nat) (d : Decor) (hd : d.ok) (f : Forest) (hok : nodesOk f = true)
+    (hfit : forestFits fs fo f = true)
     (s : St) (hclean : Clean [] s.path) (hv : s.valid = 0) (tail : List UInt8) (b : Bool)
     (htail : visSkip false tail = some b) :
-    (loop .enc cfgE nodeAppend ({} : Build) Flag.section_ s { rest := renderNest encOpenLine d 0 f ++ tail }).code = 0
-    ∧ (loop .enc cfgE nodeAppend ({} : Build) Flag.section_ s { rest := renderNest encOpenLine d 0 f ++ tail }).ctx.forest
-        = norm f :=
-  loop_nest nestStyle_E d hd f hok s Flag.section_ (by decide) hclean hv tail b htail
+    (loop .enc (cfgE fs fo) nodeAppend ({} : Build) Flag.section_ s { rest := renderNest encOpenLine d 0 f ++ tail }).code = 0
+    ∧ (loop .enc (cfgE fs fo) nodeAppend ({} : Build) Flag.section_ s
+        { rest := renderNest encOpenLine d 0 f ++ tail }).ctx.forest = norm f :=
+  loop_nest (nestStyle_E fs fo) d hd f hok hfit s Flag.section_ (by decide) hclean hv tail b htail
 
-theorem parseNode_enc (d : Decor) (hd : d.ok) (f : Forest) (hok : nodesOk f = true)
+theorem parseNode_enc (fs fo : Nat) (d : Decor) (hd : d.ok) (f : Forest) (hok : nodesOk f = true)
+    (hfit : forestFits fs fo f = true)
     (tail : List UInt8) (b : Bool) (htail : visSkip false tail = some b) :
-    (parseNode [] (Style.desc .enc) 0xff 0xff (-2) (renderNest encOpenLine d 0 f ++ tail)).code = 0
-    ∧ (parseNode [] (Style.desc .enc) 0xff 0xff (-2) (renderNest encOpenLine d 0 f ++ tail)).children = norm f := by
-  obtain ⟨hcode, hforest⟩ := loop_enc d hd f hok ({} : St) clean_init rfl tail b htail
-  have := parseNode_eq (Style.desc .enc) cfgE 120 .enc (renderNest encOpenLine d 0 f ++ tail) cfgE_desc (by decide) rfl _ rfl
-    (by unfold parseConfig; exact hcode)
+    (parseNode [] (Style.desc .enc) fs fo (-2) (renderNest encOpenLine d 0 f ++ tail)).code = 0
+    ∧ (parseNode [] (Style.desc .enc) fs fo (-2) (renderNest encOpenLine d 0 f ++ tail)).children = norm f := by
+  obtain ⟨hcode, hforest⟩ := loop_enc fs fo d hd f hok hfit ({} : St) clean_init rfl tail b htail
+  have := parseNode_eq (Style.desc .enc) (cfgE fs fo) 120 .enc (renderNest encOpenLine d 0 f ++ tail) fs fo cfgE_desc
+    (by decide) rfl _ rfl (by unfold parseConfig; exact hcode)
   refine ⟨this.1, ?_⟩
   rw [this.2]
   unfold parseConfig
@@ -206,7 +212,7 @@ def SectsOk (ts : Forest) : Prop := ts.all sectNode = true
     with insignificant characters `tail` -/
 theorem sections_tail : ∀ (ts : Forest) (kk : Nat) (m : List UInt8) (b : Build) (prev : Nat) (first : Bool) (s : St)
     (src : Src) (J tail : List UInt8) (bb : Bool),
-    SectsOk ts → nodesOk ts = true → visSkip false tail = some bb →
+    SectsOk ts → nodesOk ts = true → forestFits cfg.sect cfg.opt ts = true → visSkip false tail = some bb →
     Ready [m] s src J (renderSects d open_ close kk ts ++ tail) →
     Mode first 1 b prev → (prev = 9 ∨ prev = 11) → HasSpine 1 b.forest →
     (loop k cfg nodeAppend b prev s src).code = 0
@@ -214,13 +220,13 @@ theorem sections_tail : ∀ (ts : Forest) (kk : Nat) (m : List UInt8) (b : Build
   intro ts
   induction ts with
   | nil =>
-    intro kk m b prev first s src J tail bb _ _ htail hr _ hprev _
+    intro kk m b prev first s src J tail bb _ _ _ htail hr _ hprev _
     obtain ⟨s2, src2, heof⟩ := hst.eofOpen m s src prev (J ++ tail) bb hr.clean hprev
       (visSkip_append _ _ _ _ _ hr.junk htail) (by simpa [renderSects] using hr.src)
     obtain ⟨hcode, hctx⟩ := loop_stop k cfg b prev s s2 src src2 heof
     exact ⟨hcode, by rw [hctx]; simp [norm]⟩
   | cons t ts ih =>
-    intro kk m b prev first s src J tail bb hsh hok htail hr hm hprev hs
+    intro kk m b prev first s src J tail bb hsh hok hfit htail hr hm hprev hs
     cases t with
     | node n v cs =>
       unfold SectsOk at hsh
@@ -228,6 +234,24 @@ theorem sections_tail : ∀ (ts : Forest) (kk : Nat) (m : List UInt8) (b : Build
       obtain ⟨hsn, hrest⟩ := hsh
       simp only [sectNode, Bool.and_eq_true, Bool.or_eq_true, Bool.not_eq_eq_eq_not, Bool.not_true] at hsn
       obtain ⟨hcl', hval⟩ := hsn
+      have hfit' : (nameFits cfg.sect n = true ∧ forestFits cfg.sect cfg.opt cs = true)
+          ∧ forestFits cfg.sect cfg.opt ts = true := by
+        simp only [forestFits, Bool.and_eq_true] at hfit
+        refine ⟨?_, hfit.2⟩
+        have h1 := hfit.1
+        by_cases hce : cs.isEmpty = true
+        · have hcs : cs = [] := by simpa using hce
+          subst hcs
+          simp only [treeFits, List.isEmpty_nil, ↓reduceIte, Bool.and_eq_true, Bool.or_eq_true,
+            Bool.not_eq_eq_eq_not, Bool.not_true] at h1
+          refine ⟨?_, rfl⟩
+          rcases hval with h | h
+          · cases h
+          · rcases h1.2 with h' | h'
+            · rw [h] at h'; cases h'
+            · exact h'
+        · simp only [treeFits, hce, Bool.false_eq_true, ↓reduceIte, Bool.and_eq_true] at h1
+          exact h1
       have hok' : (nameOk n = true ∧ nodesOk cs = true) ∧ nodesOk ts = true := by
         simp only [nodesOk, treeOk, Bool.and_eq_true] at hok
         refine ⟨⟨hok.1.1, ?_⟩, hok.2⟩
@@ -274,7 +298,8 @@ theorem sections_tail : ∀ (ts : Forest) (kk : Nat) (m : List UInt8) (b : Build
       rw [hc1] at hstep1
       -- the name of the next section
       obtain ⟨s2, src2, J2, heq2, ⟨l2, fi2, v2, ln2, hs2⟩, hJ2, hr2⟩ :=
-        hst.headNext { s1 with path := p1, curr := 0, valid := 0 } src1 n (headTrail (d kk)) _ hclean1 rfl hn hht hr1
+        hst.headNext { s1 with path := p1, curr := 0, valid := 0 } src1 n (headTrail (d kk)) _ hclean1 rfl hn
+          (nameFits_ncheck _ _ hfit'.1.1) hht hr1
       have hna2 := nodeAppend_new false 0 { b with depth := 0 + 1 } Flag.sectEnd s2 1 [] n none
         (by simp [Mode, Flag.sectEnd]) (Or.inl ⟨rfl, rfl⟩) (by rw [hs2]; rfl) hlen
       have hstep2 := loop_step k cfg _ _ Flag.sectEnd _ s2 src1 src2 1 _ heq2 (by decide) hna2
@@ -287,7 +312,7 @@ theorem sections_tail : ∀ (ts : Forest) (kk : Nat) (m : List UInt8) (b : Build
           (renderOptions d (kk + 1) cs ++ (renderSects d open_ close (kk + 1 + cs.length) ts ++ tail)) :=
         ⟨clean_pth _ _, rfl, hJ2, hr2⟩
       obtain ⟨b4, prev4, s4, src4, J4, hr4, hm4, hp4, hf4, hs4, heq4⟩ :=
-        options_claim hst.toOptStyle d hd cs (kk + 1) 1 ([] ++ [n]) _ s2.curr _ src2 J2 _ true hcl' hcok hr3 hm3
+        options_claim hst.toOptStyle d hd cs (kk + 1) 1 ([] ++ [n]) _ s2.curr _ src2 J2 _ true hcl' hcok hfit'.1.2 hr3 hm3
           (by rw [hcurr2]; exact Or.inr (Or.inl rfl))
           (hasSpine_appendAt_succ 0 b.forest n none [] trivial)
       have hprev4 : prev4 = 9 ∨ prev4 = 11 := by
@@ -296,7 +321,7 @@ theorem sections_tail : ∀ (ts : Forest) (kk : Nat) (m : List UInt8) (b : Build
         · exact Or.inr rfl
       -- the remaining sections
       obtain ⟨hcode, hforest⟩ := ih (kk + 1 + cs.length) n b4 prev4 (true && cs.isEmpty) s4 src4 J4 tail bb hrest htok
-        htail (by simpa using hr4) hm4 hprev4 hs4
+        hfit'.2 htail (by simpa using hr4) hm4 hprev4 hs4
       have hall : loop k cfg nodeAppend b prev s src = loop k cfg nodeAppend b4 prev4 s4 src4 := by
         rw [hstep1, hstep2]
         simp only [hs2] at heq4 ⊢
@@ -309,7 +334,7 @@ theorem sections_tail : ∀ (ts : Forest) (kk : Nat) (m : List UInt8) (b : Build
 /-- a whole flat forest: options, then sections, then the end of the text (`tail`: insignificant characters) -/
 theorem flat_claim : ∀ (f : Forest) (kk : Nat) (b : Build) (prev : Nat) (s : St) (src : Src) (J tail : List UInt8)
     (first bb : Bool),
-    flatShape f = true → nodesOk f = true → visSkip false tail = some bb →
+    flatShape f = true → nodesOk f = true → forestFits cfg.sect cfg.opt f = true → visSkip false tail = some bb →
     Ready [] s src J (renderFlat d open_ close kk f ++ tail) →
     Mode first 0 b prev → (prev = 1 ∨ prev = 11) →
     (loop k cfg nodeAppend b prev s src).code = 0
@@ -317,7 +342,7 @@ theorem flat_claim : ∀ (f : Forest) (kk : Nat) (b : Build) (prev : Nat) (s : S
   intro f
   induction f with
   | nil =>
-    intro kk b prev s src J tail first bb _ _ htail hr _ hp
+    intro kk b prev s src J tail first bb _ _ _ htail hr _ hp
     have hpo : PrevOpt prev := by
       rcases hp with h | h
       · exact Or.inl h
@@ -327,7 +352,9 @@ theorem flat_claim : ∀ (f : Forest) (kk : Nat) (b : Build) (prev : Nat) (s : S
     obtain ⟨hcode, hctx⟩ := loop_stop k cfg b prev s s2 src src2 heof
     exact ⟨hcode, by rw [hctx]; simp [norm]⟩
   | cons t ts ih =>
-    intro kk b prev s src J tail first bb hsh hok htail hr hm hp
+    intro kk b prev s src J tail first bb hsh hok hfit htail hr hm hp
+    have hfit' : treeFits cfg.sect cfg.opt t = true ∧ forestFits cfg.sect cfg.opt ts = true := by
+      simpa [forestFits] using hfit
     have hpo : PrevOpt prev := by
       rcases hp with h | h
       · exact Or.inl h
@@ -345,10 +372,10 @@ theorem flat_claim : ∀ (f : Forest) (kk : Nat) (b : Build) (prev : Nat) (s : S
           rw [hr.src]; simp [renderFlat, renderOptions, List.append_assoc]
         obtain ⟨b2, prev2, s2, src2, J2, hr2, hm2, hp2, hf2, _, heq2⟩ :=
           options_claim hst.toOptStyle d hd [.node n v []] kk 0 [] b prev s src J _ first (by simp [isLeaf])
-            (by simp [nodesOk, hok'.1]) hr1 hm hpo trivial
+            (by simp [nodesOk, hok'.1]) (by simp [forestFits, hfit'.1]) hr1 hm hpo trivial
         simp only [List.isEmpty_cons, Bool.and_false, Bool.false_eq_true, ↓reduceIte] at hm2 hp2
         subst hp2
-        obtain ⟨hcode, hforest⟩ := ih (kk + 1) b2 11 s2 src2 J2 tail false bb hsh' hok'.2 htail hr2 hm2 (Or.inr rfl)
+        obtain ⟨hcode, hforest⟩ := ih (kk + 1) b2 11 s2 src2 J2 tail false bb hsh' hok'.2 hfit'.2 htail hr2 hm2 (Or.inr rfl)
         rw [heq2]
         refine ⟨hcode, ?_⟩
         rw [hforest, hf2]
@@ -363,6 +390,10 @@ theorem flat_claim : ∀ (f : Forest) (kk : Nat) (b : Build) (prev : Nat) (s : S
           exact ⟨⟨hok.1.1, hok.1.2.1, hok.1.2.2⟩, hok.2⟩
         obtain ⟨⟨hn, hv, hcok⟩, htok⟩ := hok'
         subst hv
+        have hfs : nameFits cfg.sect n = true ∧ forestFits cfg.sect cfg.opt cs = true := by
+          have := hfit'.1
+          simp only [treeFits, hce', Bool.false_eq_true, ↓reduceIte, Bool.and_eq_true] at this
+          exact this
         have hlen : n.length < 65535 := by
           have := hn
           simp only [nameOk, Bool.and_eq_true, decide_eq_true_eq] at this
@@ -375,7 +406,7 @@ theorem flat_claim : ∀ (f : Forest) (kk : Nat) (b : Build) (prev : Nat) (s : S
           rw [hr.src]
           simp [renderFlat, renderSects, hce', List.append_assoc]
         obtain ⟨s1, src1, J1, heq1, ⟨l1, fi1, v1, ln1, hs1⟩, hJ1, hr1⟩ :=
-          hst.headFirst s src prev _ n (headTrail (d kk)) _ hr.clean hr.valid hp hjunk hn hht hsrc
+          hst.headFirst s src prev _ n (headTrail (d kk)) _ hr.clean hr.valid hp hjunk hn (nameFits_ncheck _ _ hfs.1) hht hsrc
         have hna1 := nodeAppend_new first 0 b prev s1 1 [] n none hm (Or.inl ⟨rfl, rfl⟩) (by rw [hs1]; rfl) hlen
         have hstep1 := loop_step k cfg b _ prev s s1 src src1 1 _ heq1 (by decide) hna1
           (by rw [hs1]; exact afterSave_inv _ _ _ _)
@@ -386,13 +417,13 @@ theorem flat_claim : ∀ (f : Forest) (kk : Nat) (b : Build) (prev : Nat) (s : S
             (renderOptions d (kk + 1) cs ++ (renderSects d open_ close (kk + 1 + cs.length) ts ++ tail)) :=
           ⟨clean_pth _ _, rfl, hJ1, hr1⟩
         obtain ⟨b3, prev3, s3, src3, J3, hr3, hm3, hp3, hf3, hs3, heq3⟩ :=
-          options_claim hst.toOptStyle d hd cs (kk + 1) 1 ([] ++ [n]) _ s1.curr _ src1 J1 _ true hcl hcok hr2 hm2
+          options_claim hst.toOptStyle d hd cs (kk + 1) 1 ([] ++ [n]) _ s1.curr _ src1 J1 _ true hcl hcok hfs.2 hr2 hm2
             (by rw [hcurr1]; exact Or.inr (Or.inl rfl))
             (hasSpine_appendAt_succ 0 b.forest n none [] trivial)
         simp only [hce', Bool.and_false, Bool.false_eq_true, ↓reduceIte] at hm3 hp3
         subst hp3
         obtain ⟨hcode, hforest⟩ := sections_tail hst d hd ts (kk + 1 + cs.length) n b3 11 false s3 src3 J3 tail bb hrest
-          htok htail (by simpa using hr3) hm3 (Or.inr rfl) hs3
+          htok hfit'.2 htail (by simpa using hr3) hm3 (Or.inr rfl) hs3
         have hall : loop k cfg nodeAppend b prev s src = loop k cfg nodeAppend b3 11 s3 src3 := by
           rw [hstep1]
           simp only [hs1] at heq3 ⊢
@@ -406,16 +437,18 @@ end sections
 
 /-- **flat styles are read back** (`[name]` and `|name`) -/
 theorem parseNode_flat {k : Kind} {cfg : Cfg} {open_ close : List UInt8} (hst : SectStyle k cfg open_ close)
-    (desc : Option (List UInt8)) (t : UInt8) (hdesc : parseFormat desc = (cfg.fmt, t)) (hk : Kind.ofType t = some k)
-    (hcfg : cfg = { fmt := cfg.fmt, sect := 0xff, opt := 0xff, eof := -2 })
+    (desc : Option (List UInt8)) (t : UInt8) (fs fo : Nat) (hdesc : parseFormat desc = (cfg.fmt, t))
+    (hk : Kind.ofType t = some k)
+    (hcfg : cfg = { fmt := cfg.fmt, sect := fs, opt := fo, eof := -2 })
     (d : Decor) (hd : d.ok) (f : Forest) (hsh : flatShape f = true) (hok : nodesOk f = true)
+    (hfit : forestFits cfg.sect cfg.opt f = true)
     (tail : List UInt8) (bb : Bool) (htail : visSkip false tail = some bb) :
-    (parseNode [] desc 0xff 0xff (-2) (renderFlat d open_ close 0 f ++ tail)).code = 0
-    ∧ (parseNode [] desc 0xff 0xff (-2) (renderFlat d open_ close 0 f ++ tail)).children = norm f := by
+    (parseNode [] desc fs fo (-2) (renderFlat d open_ close 0 f ++ tail)).code = 0
+    ∧ (parseNode [] desc fs fo (-2) (renderFlat d open_ close 0 f ++ tail)).children = norm f := by
   obtain ⟨hcode, hforest⟩ := flat_claim hst d hd f 0 ({} : Build) Flag.section_ ({} : St)
-    { rest := renderFlat d open_ close 0 f ++ tail } [] tail true bb hsh hok htail ⟨clean_init, rfl, rfl, by simp⟩
+    { rest := renderFlat d open_ close 0 f ++ tail } [] tail true bb hsh hok hfit htail ⟨clean_init, rfl, rfl, by simp⟩
     (by simp [Mode, Flag.section_, Flag.sectEnd]) (Or.inl rfl)
-  have := parseNode_eq desc cfg t k (renderFlat d open_ close 0 f ++ tail) hdesc hk hcfg _ rfl
+  have := parseNode_eq desc cfg t k (renderFlat d open_ close 0 f ++ tail) fs fo hdesc hk hcfg _ rfl
     (by unfold parseConfig; exact hcode)
   refine ⟨this.1, ?_⟩
   rw [this.2]
